@@ -36,7 +36,8 @@ func (c13) Plan(tier string, seed int64) []mon.Workload {
 	if tier == "thorough" {
 		n = 80000
 	}
-	return []mon.Workload{{Name: "trees", N: n}, {Name: "many-calls", N: int64(len(c13ManyShapes) * len(c13ManyCounts)), Exhaustive: true}}
+	return []mon.Workload{{Name: "trees", N: n}, {Name: "many-calls", N: int64(len(c13ManyShapes) * len(c13ManyCounts)), Exhaustive: true},
+		{Name: "forwarders", N: c13FwdN(), Exhaustive: true}}
 }
 
 type c13Case struct {
@@ -162,9 +163,76 @@ func c13Many(i int64) c13Case {
 	return cs
 }
 
+// forwarders (exhaustive): call trees of 2..4 scripts whose MIDDLE scripts
+// are next to nothing - a single use() statement, the same with comments and
+// blank lines around it, inside a branch, with one statement before or after
+// it - above a leaf that fails at run time, exit()s, or succeeds. A script
+// that only forwards is still a script: it has its own variable scope, exit()
+// below it ends only the script it is in, and an error from below carries its
+// call site.
+var c13FwdMids = []string{"use(\"NEXT\")\n", "# only forwards\n\n  use(\"NEXT\")  # that is all\n\n", "use(\"NEXT\")\nadd_key(after_SELF, 1)\n", "if true {\n  use(\"NEXT\")\n}\n", "v = \"mid-private\"\nuse(\"NEXT\")\n",
+	"use(\"NEXT\")\nuse(\"NEXT\")\n", "for e in [1] {\n  use(\"NEXT\")\n}\n"}
+var c13FwdLeaves = []string{"boom()\n", "zero = 0\nx = 1 / zero\n", "add_key(leaf_ran, 1)\np(\"leaf\", v)\n", "add_key(leaf_ran, 1)\nexit()\nadd_key(not_reached, 1)\n", "add_key(k, boom())\n", "if true {\n  for e in [1] {\n    w = [1]\n    y = w[5]\n  }\n}\n"}
+
+func c13FwdN() int64 {
+	m, l := int64(len(c13FwdMids)), int64(len(c13FwdLeaves))
+	return l + m*l + m*m*l
+}
+
+func c13Forwarders(i int64) c13Case {
+	m, l := int64(len(c13FwdMids)), int64(len(c13FwdLeaves))
+	var mids []string
+	var leaf string
+	switch {
+	case i < l:
+		leaf = c13FwdLeaves[i]
+	case i < l+m*l:
+		i -= l
+		mids, leaf = []string{c13FwdMids[i/l]}, c13FwdLeaves[i%l]
+	default:
+		i -= l + m*l
+		mids, leaf = []string{c13FwdMids[i/(m*l)], c13FwdMids[i/l%m]}, c13FwdLeaves[i%l]
+	}
+	names := []string{"main.p"}
+	for j := range mids {
+		names = append(names, fmt.Sprintf("s%d.p", j+1))
+	}
+	names = append(names, fmt.Sprintf("s%d.p", len(mids)+1))
+	srcs := map[string]string{"main.p": "v = \"main-private\"\nadd_key(m0, 1)\nuse(\"s1.p\")\np(\"end-of-main.p\", v, leaf_ran)\n"}
+	for j, mid := range mids {
+		srcs[names[j+1]] = strings.NewReplacer("NEXT", names[j+2], "SELF", fmt.Sprint(j+1)).Replace(mid)
+	}
+	srcs[names[len(names)-1]] = leaf
+	cs := c13Case{Stmts: map[string][]*gt.T{}, Srcs: srcs, Names: names, Point: ref.NewPoint("m", nil, map[string]any{"message": "x"}, time.Unix(1700000000, 0))}
+	for name, text := range srcs {
+		o := drive.Parse(name, text)
+		if o.Err != nil {
+			panic("c13: forwarders script does not parse: " + text + ": " + o.Err.Error())
+		}
+		t, err := gt.FromStmts(o.Stmts)
+		if err != nil {
+			panic(err)
+		}
+		// printed again by the generator's printer, which records where every
+		// token is (the oracle's positions do not come from the parser under
+		// test); a script that had comments gets a layout with comments
+		st := gt.ParenthesizeStmts(gt.CloneStmts(t))
+		var lay *gt.Layout
+		if strings.Contains(text, "#") {
+			lay = &gt.Layout{R: gen.Rand(i*7 + int64(len(name))), Breaks: true, Multibyte: true}
+		}
+		cs.Stmts[name] = st
+		cs.Srcs[name] = gt.Print(st, lay)
+	}
+	return cs
+}
+
 func (k c13) buildFor(c *mon.Ctx, workload string, i int64) c13Case {
 	if workload == "many-calls" {
 		return c13Many(i)
+	}
+	if workload == "forwarders" {
+		return c13Forwarders(i)
 	}
 	return k.build(c)
 }
